@@ -49,6 +49,8 @@ theorem whileLoop_rel {step step' : State N → Res N (Option (Ctl N))}
           (first | exact ihn hs | exact RRel.mono hle (RRel.ok (A := AOVs) trivial hs) | exact RRel.mono hle (RRel.ok (A := AOVs) ha hs))
     · obtain ⟨β1, hle, hv, hs⟩ := hr
       exact RRel.mono hle (RRel.err hv hs)
+    · exact RRel.timeout_left hr _
+    · exact RRel.timeout_left hr _
     · trivial
 
 theorem forLoop_rel {body body' : N.F → State N → Res N (Ctl N)}
@@ -79,6 +81,8 @@ theorem forLoop_rel {body body' : N.F → State N → Res N (Ctl N)}
           (first | exact ihn _ hs | exact RRel.mono hle (RRel.ok (A := AOVs) trivial hs) | exact RRel.mono hle (RRel.ok (A := AOVs) ha hs))
       · obtain ⟨β1, hle, hv, hs⟩ := hr
         exact RRel.mono hle (RRel.err hv hs)
+      · exact RRel.timeout_left hr _
+      · exact RRel.timeout_left hr _
       · trivial
 
 theorem gforLoop_rel {iter iter' : Val N → State N → Res N (List (Val N))}
@@ -133,6 +137,8 @@ theorem gforLoop_rel {iter iter' : Val N → State N → Res N (List (Val N))}
             (first | exact ihn hs2 | exact RRel.mono hle' (RRel.ok (A := AOVs) trivial hs2) | exact RRel.mono hle' (RRel.ok (A := AOVs) ha2 hs2))
         · obtain ⟨β2, hle2, hv2, hs2⟩ := hb
           exact RRel.mono (Inj.le_trans hle hle2) (RRel.err hv2 hs2)
+        · exact RRel.mono hle (RRel.timeout_left hb _)
+        · exact RRel.mono hle (RRel.timeout_left hb _)
         · trivial
       revert hcont
       vcases hfirst : first rs , first rs'
@@ -142,6 +148,8 @@ theorem gforLoop_rel {iter iter' : Val N → State N → Res N (List (Val N))}
       all_goals exact hcont (by vr)
     · obtain ⟨β1, hle, hv, hs⟩ := hr
       exact RRel.mono hle (RRel.err hv hs)
+    · exact RRel.timeout_left hr _
+    · exact RRel.timeout_left hr _
     · trivial
 
 end DarkluaModel.Sem.HeapU
